@@ -187,9 +187,19 @@ def switch_cond_cached(body, bb):
     return switch_cond(body, bb)
 
 
+
+def r4_dead_client_messages(ctx):
+    """Bytes of a client whose entity is gone never reach the server's handlers: handlers issue commands on the sender entity
+    (`commands.entity(client).insert(AuthorizedClient)`), which panic in the command queue for a despawned entity - a panic no
+    panic-edge analysis of the handler sees. Structural guarantee: removing a client purges its queued messages (same rule as C09.R2)."""
+    import rules.C09 as C09
+    C09.removed_client_purge(ctx)
+
+
 RULES = [
     ("C06.R1", "no panic edge in the client-controlled region", r1_panic_edges, 15, None),
     ("C06.R2", "no allocation sized by unvalidated client data", r2_bounded_alloc, 1, None),
     ("C06.R3", "decode errors are dropped without leaving the drain loop or propagating", r3_error_discipline, 4, None),
+    ("C06.R4", "messages of a removed client are purged before any handler sees them (handlers issue commands on the sender entity)", r4_dead_client_messages, 3, ["default", "all-features", "server-only"]),
 ]
 THOROUGH_CONFIGS = ["default", "all-features", "server-only"]
